@@ -187,6 +187,10 @@ def run_case(case):
                 res.emit("hx.bend 0", "exn WriteFailed")
                 failed = True
                 res.tags.add("batch:commit-failed")
+            except Exception as e:  # noqa
+                res.emit("hx.bend 1", "ok")
+                failed = True
+                res.fail("operation-raised", "squash_changes block %r raised %r on a complete database" % (op, e))
             else:
                 res.emit("hx.bend 0", "ok")
                 model.clear()
